@@ -64,3 +64,13 @@ impl HalfSpace {
         }
     }
 }
+
+#[cfg(feature = "verif-hooks")]
+impl HalfSpace {
+    pub fn vh_d(&self) -> f64 {
+        self.d
+    }
+    pub fn vh_errb(&self) -> f64 {
+        self.errb
+    }
+}
